@@ -1346,11 +1346,11 @@ async def timeout_watches_every_tree():
             await anyio.sleep(30)
     out = {}
 
-    async def attempt(label, root, config):
+    async def attempt(label, root, config, timeout=0.2):
         async with Context():
             try:
-                with anyio.fail_after(3):
-                    await start_component(root, config, timeout=0.2)
+                with anyio.fail_after(8):
+                    await start_component(root, config, timeout=timeout)
                 out[label] = "returned"
             except TimeoutError as e:
                 out[label] = "TimeoutError" if "component tree" in str(e) else "the harness's own deadline (startup hung)"
@@ -1358,7 +1358,7 @@ async def timeout_watches_every_tree():
                 out[label] = type(e).__name__ + ": " + str(e)[:80]
     await attempt("same tree", Component, {"components": {"a": {"type": Component},
                                                          "b": {"type": Component, "components": {"stall": {"type": Staller}}}}})
-    await attempt("trivial first", Component, {})
+    await attempt("trivial first", Component, {}, timeout=5)     # must simply succeed: generous, also on a busy machine
     await attempt("then stalling", Component, {"components": {"stall": {"type": Staller}}})
     want = {"same tree": "TimeoutError", "trivial first": "returned", "then stalling": "TimeoutError"}
     return out == want, f"{out}"
@@ -1422,8 +1422,8 @@ async def factories_waiting_on_each_other_complete():
     err = None
     async with Context():
         try:
-            with anyio.fail_after(5):
-                await start_component(Root, {}, timeout=2)
+            with anyio.fail_after(10):
+                await start_component(Root, {}, timeout=4)
         except BaseException as e:  # noqa
             err = f"{type(e).__name__}: {str(e)[:100]}" + (f" caused by {e.__cause__!r}"[:160] if e.__cause__ else "")
     ok = err is None and isinstance(got.get("a"), TA) and isinstance(got.get("d"), TD) and isinstance(got.get("c"), TC) \
@@ -1839,8 +1839,8 @@ async def partly_shadowed_factory_releases_its_waiter():
     err = None
     async with Context():
         try:
-            with anyio.fail_after(5):
-                await start_component(Root, {}, timeout=1.5)
+            with anyio.fail_after(10):
+                await start_component(Root, {}, timeout=4)
         except BaseException as e:  # noqa
             err = f"{type(e).__name__}: {str(e)[:80]}"
     return err is None and isinstance(got.get("b"), TB), f"error={err}, got={ {k: type(v).__name__ for k, v in got.items()} }"
@@ -2214,8 +2214,8 @@ async def factory_for_an_iterable_class_releases_its_waiter():
     err = None
     async with Context():
         try:
-            with anyio.fail_after(5):
-                await start_component(Root, {}, timeout=1.5)
+            with anyio.fail_after(10):
+                await start_component(Root, {}, timeout=4)
         except BaseException as e:  # noqa
             err = f"{type(e).__name__}: {str(e)[:80]}"
     return err is None and got.get("mode") is Mode.safe, f"error={err}, got={got}"
